@@ -99,6 +99,7 @@ type c11Model struct {
 	mapCache               map[*ssa.Global]map[int64]int64
 	flows                  map[*ssa.Function]*c11Flow
 	sums                   map[*ssa.Function][3]int
+	tabCache               map[*ssa.Global][][]int64
 }
 
 func (m *c11Model) fname(i int) string { return m.T.Obj().Name() + "." + m.st.Field(i).Name() }
@@ -1491,7 +1492,8 @@ func c11NilTest(ce condEdge, v ssa.Value) bool {
 type c11Guard struct {
 	fn       *ssa.Function
 	classify atomClassifier
-	opaque   bool // some branch tests the parse result in a way the classifier does not understand
+	opaque   bool      // some branch tests the parse result in a way the classifier does not understand
+	val      ssa.Value // when set: `val == nil` is the atom "resnil"
 }
 
 func c11Guards(fn *ssa.Function, call *ssa.Call, sameBoard func(ssa.Value) bool, invalid string) *c11Guard {
@@ -1505,6 +1507,9 @@ func c11Guards(fn *ssa.Function, call *ssa.Call, sameBoard func(ssa.Value) bool,
 		case *ssa.BinOp:
 			if (x.Op == token.EQL || x.Op == token.NEQ) && ((isErr(x.X) && c11IsNil(x.Y)) || (isErr(x.Y) && c11IsNil(x.X))) {
 				return "errnil", x.Op == token.NEQ, true
+			}
+			if (x.Op == token.EQL || x.Op == token.NEQ) && g.val != nil && ((x.X == g.val && c11IsNil(x.Y)) || (x.Y == g.val && c11IsNil(x.X))) {
+				return "resnil", x.Op == token.NEQ, true
 			}
 		case *ssa.Call:
 			if isCallValueTo(x, invalid) && len(x.Call.Args) == 1 && sameBoard(x.Call.Args[0]) {
@@ -1551,17 +1556,123 @@ func c11Guards(fn *ssa.Function, call *ssa.Call, sameBoard func(ssa.Value) bool,
 	return g
 }
 
-// report: target must not be executable on a path consistent with atom == bad.
-func (g *c11Guard) report(c *Ctx, rule, key string, target ssa.Instruction, atom string, bad bool, okMsg, badMsg string) {
-	can, complete := canExecuteUnder(g.fn, g.classify, nil, func(in ssa.Instruction) bool { return in == target }, map[string]bool{atom: bad}, 2)
-	switch {
-	case !can && complete:
-		c.Ok(rule, key, target.Pos(), "%s", okMsg)
-	case g.opaque || !complete:
-		c.Undec(rule, key, target.Pos(), "%s — but %s tests the parse result through a helper or expression this rule does not interpret, so the guard may be there in a form it cannot see", badMsg, fnName(g.fn))
-	default:
-		c.Fail(rule, key, target.Pos(), "%s", badMsg)
+// report: one of the targets must not be executable on a path consistent with atom == bad (a value may be
+// picked at one point and installed at another: it is enough that either point is guarded). exact=false: the
+// targets over-approximate the paths in question, so a failure is only "undecided".
+func (g *c11Guard) report(c *Ctx, rule, key string, targets []ssa.Instruction, exact bool, atom string, bad bool, okMsg, badMsg string) {
+	complete := true
+	for _, target := range targets {
+		can, done := canExecuteUnder(g.fn, g.classify, nil, func(in ssa.Instruction) bool { return in == target }, map[string]bool{atom: bad}, 2)
+		if complete = complete && done; !can && done {
+			c.Ok(rule, key, target.Pos(), "%s", okMsg)
+			return
+		}
 	}
+	if g.opaque || !complete || !exact {
+		c.Undec(rule, key, targets[0].Pos(), "%s — but %s tests the parse result through a helper or expression this rule does not interpret (or merges values on a branching edge), so the guard may be there in a form it cannot see", badMsg, fnName(g.fn))
+	} else {
+		c.Fail(rule, key, targets[0].Pos(), "%s", badMsg)
+	}
+}
+
+// c11Pick: one of the values v can be, with the instruction whose execution means "this one was chosen": v
+// itself at `at`, or through phis the incoming value at the end of the incoming block (exact only when that
+// block has no other way to go).
+type c11Pick struct {
+	v     ssa.Value
+	at    ssa.Instruction
+	exact bool
+}
+
+func c11Picks(v ssa.Value, at ssa.Instruction, depth int) (out []c11Pick) {
+	ph, isPhi := v.(*ssa.Phi)
+	if !isPhi || depth > 4 {
+		return []c11Pick{{v, at, !isPhi}}
+	}
+	for i, e := range ph.Edges {
+		pred := ph.Block().Preds[i]
+		for _, pk := range c11Picks(e, pred.Instrs[len(pred.Instrs)-1], depth+1) {
+			pk.exact = pk.exact && len(pred.Succs) == 1
+			out = append(out, pk)
+		}
+	}
+	return out
+}
+
+// c11CallOf: v is the result (or one result) of a call; returns the call and the result index.
+func c11CallOf(v ssa.Value) (*ssa.Call, int) {
+	if ex, ok := v.(*ssa.Extract); ok {
+		call, _ := ex.Tuple.(*ssa.Call)
+		return call, ex.Index
+	}
+	call, _ := v.(*ssa.Call)
+	return call, 0
+}
+
+// c11Install checks that value v, installed as the driver's board by instruction `at` of fn (label: key
+// prefix), went through both acceptance tests when it comes from board.FromFEN — directly in fn, or inside a
+// chess-3 helper that returns it (then: the helper's returns are checked, and a helper that can return nil
+// must have its result tested against nil here). Returns the number of FromFEN-derived installs found.
+func c11Install(c *Ctx, rule, label string, fn *ssa.Function, v ssa.Value, at ssa.Instruction, depth int) int {
+	const fromFEN, invalid = "board.FromFEN", "board.(Board).InvalidPieceCount"
+	n := 0
+	for i, pk := range c11Picks(v, at, 0) {
+		call, idx := c11CallOf(pk.v)
+		sfx := ""
+		if i > 0 {
+			sfx = fmt.Sprintf("@%d", i+1)
+		}
+		targets := []ssa.Instruction{pk.at}
+		if pk.at != at {
+			targets = append(targets, at)
+		}
+		switch {
+		case call == nil:
+			// a constant, a parameter, a fresh board: not a parsed FEN as far as this rule can see
+		case isCallValueTo(call, fromFEN):
+			n++
+			board := pk.v
+			sameBoard := func(x ssa.Value) bool {
+				if ld, ok := c11Load(x); ok {
+					x = ld.X
+				}
+				return x == board
+			}
+			g := c11Guards(fn, call, sameBoard, invalid)
+			g.report(c, rule, label+":err==nil"+sfx, targets, pk.exact, "errnil", false,
+				"the FromFEN result becomes the driver's board only on paths where err == nil was established",
+				"the FromFEN result can become the driver's board on a path where the error of that FromFEN call is non-nil or untested: a rejected FEN replaces the current position")
+			g.report(c, rule, label+":piece-count"+sfx, targets, pk.exact, "invalid", true,
+				"the FromFEN result becomes the driver's board only on paths where InvalidPieceCount() on that board was false",
+				"the FromFEN result can become the driver's board on a path where InvalidPieceCount() on that board is true or untested: a position with impossible material replaces the current one")
+		default:
+			h := call.Call.StaticCallee()
+			if h == nil || !isOwn(h) || h.Blocks == nil || depth >= 2 {
+				continue
+			}
+			found, canNil := 0, false
+			allInstrs(h, func(in ssa.Instruction) {
+				ret, ok := in.(*ssa.Return)
+				if !ok || idx >= len(ret.Results) {
+					return
+				}
+				rv := returnedValue(ret, idx)
+				for _, p2 := range c11Picks(rv, ret, 0) {
+					canNil = canNil || c11IsNil(p2.v)
+				}
+				found += c11Install(c, rule, fnName(h)+"#return-board", h, rv, ret, depth+1)
+			})
+			n += found
+			if found > 0 && canNil { // the helper reports rejection by returning nil: that must be tested here
+				g := c11Guards(fn, call, func(ssa.Value) bool { return false }, "-")
+				g.val = pk.v
+				g.report(c, rule, label+":non-nil"+sfx, targets, pk.exact, "resnil", true,
+					fmt.Sprintf("the result of %s becomes the driver's board only on paths where it was found non-nil (nil is how it reports a rejected FEN)", fnName(h)),
+					fmt.Sprintf("%s returns nil for a rejected FEN and its result can become the driver's board on a path where it is nil or untested: the current position is lost", fnName(h)))
+			}
+		}
+	}
+	return n
 }
 
 // c11CallsOwnWith: fn passes v to a chess-3 function other than the FEN entry points.
@@ -1600,30 +1711,8 @@ func c11R2(c *Ctx, p *Prog) {
 				}
 				continue
 			}
-			var call *ssa.Call
-			for v := range backSlice(st.Val, sliceOpts{}) {
-				if isCallValueTo(v, fromFEN) {
-					call = v.(*ssa.Call)
-				}
-			}
-			if call == nil {
-				continue // value does not come from a FromFEN call in this function
-			}
-			stores++
-			// "under which conditions can the store execute": on no path may err != nil or InvalidPieceCount() hold
-			sameBoard := func(v ssa.Value) bool {
-				if ld, ok := c11Load(v); ok {
-					v = ld.X
-				}
-				return v == st.Val
-			}
-			g := c11Guards(st.Parent(), call, sameBoard, invalid)
-			g.report(c, rule, w+"#install:err==nil", st, "errnil", false,
-				fmt.Sprintf("the store of the FromFEN result into %s executes only on paths where err == nil was established", field),
-				fmt.Sprintf("the store of the FromFEN result into %s can execute on a path where the error of that FromFEN call is non-nil or untested: a rejected FEN replaces the current position", field))
-			g.report(c, rule, w+"#install:piece-count", st, "invalid", true,
-				fmt.Sprintf("the store of the FromFEN result into %s executes only on paths where InvalidPieceCount() on that board was false", field),
-				fmt.Sprintf("the store of the FromFEN result into %s can execute on a path where InvalidPieceCount() on that board is true or untested: a position with impossible material replaces the current one", field))
+			// "under which conditions can this value become the board": on no path may err != nil or InvalidPieceCount() hold
+			stores += c11Install(c, rule, w+"#install", st.Parent(), st.Val, st, 0)
 		}
 	}
 	// parsing in place into the live board (ParseFEN(d.board, ..)): every way out of the function after the call
@@ -1718,7 +1807,7 @@ func c11R2(c *Ctx, p *Prog) {
 				continue
 			}
 			g := c11Guards(fn, parse, func(ssa.Value) bool { return false }, invalid)
-			g.report(c, rule, fromFEN+"#return:parse-accepted"+sfx, pk.at, "errnil", false,
+			g.report(c, rule, fromFEN+"#return:parse-accepted"+sfx, []ssa.Instruction{pk.at}, true, "errnil", false,
 				"FromFEN returns a board only on paths where ParseFEN on that board returned nil",
 				"FromFEN can return a board on a path where ParseFEN's error is non-nil or untested")
 			isReset := func(in ssa.Instruction) bool {
@@ -1861,7 +1950,7 @@ func c11R4Epd(c *Ctx, p *Prog, rule string) {
 	allInstrs(fn, func(in ssa.Instruction) {
 		ret, ok := in.(*ssa.Return)
 		if ok && len(ret.Results) == 1 && c11IsNil(returnedValue(ret, 0)) {
-			g.report(c, rule, spec+"#nil-only-after-accept", ret, "errnil", false,
+			g.report(c, rule, spec+"#nil-only-after-accept", []ssa.Instruction{ret}, true, "errnil", false,
 				"Parse returns nil only on paths where board.ParseFEN returned nil",
 				"Parse can return nil on a path where board.ParseFEN's error is non-nil or untested: a rejected FEN is reported as parsed")
 		}
@@ -1989,6 +2078,60 @@ func c11R4Extract(c *Ctx, p *Prog, rule string) {
 // ---------------------------------------------------------------- R3: same alphabets (closed-expression evaluation)
 
 type c11Env map[ssa.Value]int64
+
+// constTable: g is a package-level array (of integers, or of structs of integers) that nothing outside package
+// initialisation stores to or takes the address of; returns rows x fields of its literal, nil when not established.
+func (m *c11Model) constTable(g *ssa.Global) [][]int64 {
+	if r, ok := m.tabCache[g]; ok || g.Pkg == nil {
+		return r
+	}
+	if m.tabCache == nil {
+		m.tabCache = map[*ssa.Global][][]int64{}
+	}
+	m.tabCache[g] = nil
+	name := relPkg(g.Pkg.Pkg.Path()) + "." + g.Name()
+	for _, fn := range m.p.OwnFuncs() {
+		if e := directEffects(fn); !isInitName(fnName(fn)) && (len(e.GlobalWrites[name]) > 0 || len(e.Escapes[name]) > 0) {
+			return nil
+		}
+	}
+	expr, pk := m.p.pkgVarInit(name)
+	cl, ok := expr.(*ast.CompositeLit)
+	if !ok || pk == nil {
+		return nil
+	}
+	var rows [][]int64
+	for _, el := range cl.Elts {
+		inner, isStruct := el.(*ast.CompositeLit)
+		if v, ok := constInt(pk.TypesInfo, el); ok {
+			rows = append(rows, []int64{v})
+			continue
+		}
+		st, _ := pk.TypesInfo.TypeOf(el).Underlying().(*types.Struct)
+		if !isStruct || st == nil {
+			return nil // keyed array elements, nested tables ...: not modelled
+		}
+		row := make([]int64, st.NumFields())
+		for j, e := range inner.Elts {
+			if kv, ok := e.(*ast.KeyValueExpr); ok {
+				j, e = -1, kv.Value
+				for k := 0; k < st.NumFields(); k++ {
+					if id, ok := kv.Key.(*ast.Ident); ok && id.Name == st.Field(k).Name() {
+						j = k
+					}
+				}
+			}
+			v, ok := constInt(pk.TypesInfo, e)
+			if !ok || j < 0 || j >= len(row) {
+				return nil
+			}
+			row[j] = v
+		}
+		rows = append(rows, row)
+	}
+	m.tabCache[g] = rows
+	return rows
+}
 
 var c11Ops = map[token.Token]func(a, b int64) int64{
 	token.ADD: func(a, b int64) int64 { return a + b }, token.SUB: func(a, b int64) int64 { return a - b },
@@ -2257,6 +2400,195 @@ func (m *c11Model) readsBuffer(fn *ssa.Function) bool {
 		})
 	}
 	return reads
+}
+
+// cellRef: v reads column col of row idx of a package-level table: tbl[idx].f directly, through its address, or
+// through a local copy of the row (`for _, r := range tbl`, `r := tbl[i]`) that is assigned exactly once, whole,
+// before the read and never written field-wise.
+func (m *c11Model) cellRef(v ssa.Value) (g *ssa.Global, idx ssa.Value, col int, ok bool) {
+	rowOf := func(r ssa.Value) (*ssa.Global, ssa.Value) {
+		if ix, ok := r.(*ssa.Index); ok { // (*tbl)[i]
+			if ld, ok := c11Load(ix.X); ok {
+				g, _ := ld.X.(*ssa.Global)
+				return g, ix.Index
+			}
+		} else if ld, ok := c11Load(r); ok { // *&tbl[i]
+			if ia, ok := ld.X.(*ssa.IndexAddr); ok {
+				g, _ := ia.X.(*ssa.Global)
+				return g, ia.Index
+			}
+		}
+		return nil, nil
+	}
+	if f, isF := v.(*ssa.Field); isF {
+		g, idx = rowOf(f.X)
+		return g, idx, f.Field, g != nil
+	}
+	ld, isLd := c11Load(v)
+	if !isLd {
+		return nil, nil, 0, false
+	}
+	fa, isFA := ld.X.(*ssa.FieldAddr)
+	if !isFA {
+		g, idx = rowOf(v) // table of plain integers
+		return g, idx, 0, g != nil
+	}
+	if ia, ok := fa.X.(*ssa.IndexAddr); ok {
+		g, _ = ia.X.(*ssa.Global)
+		return g, ia.Index, fa.Field, g != nil
+	}
+	al, ok := fa.X.(*ssa.Alloc)
+	if !ok {
+		return nil, nil, 0, false
+	}
+	var copyOf *ssa.Store
+	for _, r := range *al.Referrers() {
+		switch x := r.(type) {
+		case *ssa.Store:
+			if x.Addr != ssa.Value(al) || copyOf != nil {
+				return nil, nil, 0, false
+			}
+			copyOf = x
+		case *ssa.FieldAddr:
+			for _, r2 := range *x.Referrers() {
+				if _, isLoad := c11Load(c11AsValue(r2)); !isLoad {
+					return nil, nil, 0, false
+				}
+			}
+		case *ssa.DebugRef:
+		default:
+			return nil, nil, 0, false
+		}
+	}
+	if copyOf == nil || !instrDominates(copyOf, ld) {
+		return nil, nil, 0, false
+	}
+	g, idx = rowOf(copyOf.Val)
+	return g, idx, fa.Field, g != nil
+}
+
+// c11TableEmit is the static reading of "for i over all rows of tbl, in index order: if field&tbl[i].right != 0
+// (or == tbl[i].right) { write the byte tbl[i].letter }".
+type c11TableEmit struct {
+	rows       [][]int64
+	right, let int  // columns
+	eq         bool // gate is field&right == right
+}
+
+// tableEmit recognises emission e (a byte write inside a loop) as such a table-driven emission gated on the
+// Board field `field`. why != "": not of that shape (the caller reports undecided).
+func (m *c11Model) tableEmit(e c11Emit, field string) (*c11TableEmit, string) {
+	g, idx, let, ok := m.cellRef(e.val)
+	if !ok || e.kind != "byte" {
+		return nil, "the byte written is not a cell of a package-level table"
+	}
+	rows := m.constTable(g)
+	n, full := fullRangeIndex(idx)
+	if rows == nil || !full || n != int64(len(rows)) {
+		return nil, fmt.Sprintf("%s is not an immutable literal table visited by a full-range loop 0..len-1", g.Name())
+	}
+	// the natural loop of that counter: no exit but the header's, and the write is not inside an inner loop
+	ph, _ := stripConv(idx).(*ssa.Phi)
+	if bo, ok := stripConv(idx).(*ssa.BinOp); ok {
+		ph, _ = stripConv(bo.X).(*ssa.Phi)
+	}
+	if ph == nil {
+		return nil, "loop counter not recognised"
+	}
+	hdr, blk := ph.Block(), e.in.Block()
+	loop := map[*ssa.BasicBlock]bool{hdr: true}
+	var grow func(b *ssa.BasicBlock)
+	grow = func(b *ssa.BasicBlock) {
+		if !loop[b] && hdr.Dominates(b) {
+			loop[b] = true
+			for _, p := range b.Preds {
+				grow(p)
+			}
+		}
+	}
+	for _, p := range hdr.Preds {
+		if hdr.Dominates(p) {
+			grow(p)
+		}
+	}
+	for b := range loop {
+		for _, s := range b.Succs {
+			if b != hdr && !loop[s] {
+				return nil, "the loop over the table can be left before its end (break / return)"
+			}
+		}
+	}
+	again, _ := reachAvoiding(e.in, e.in, func(in ssa.Instruction) bool { return in.Block() == hdr })
+	if !loop[blk] || blk == hdr || again {
+		return nil, "the write is not executed at most once per iteration of the loop over the table"
+	}
+	// the loop itself runs unconditionally as far as memory is concerned; inside, exactly one gate
+	var gates []condEdge
+	for _, ce := range c11EdgeConds(blk) {
+		switch in := ce.If.Block(); {
+		case in == hdr:
+		case loop[in]:
+			gates = append(gates, ce)
+		default:
+			for w := range backSlice(ce.Cond, sliceOpts{ThroughCalls: true}) {
+				if _, isLd := c11Load(w); isLd {
+					return nil, "the loop over the table runs under a condition that depends on memory"
+				}
+			}
+		}
+	}
+	if len(gates) != 1 {
+		return nil, fmt.Sprintf("the write is gated by %d conditions inside the loop, expected exactly one", len(gates))
+	}
+	op, X, Y, ok := c11Cmp(gates[0])
+	if !ok || (op != token.NEQ && op != token.EQL) {
+		return nil, "gate is not an (in)equality"
+	}
+	if _, isAnd := X.(*ssa.BinOp); !isAnd {
+		X, Y = Y, X
+	}
+	and, isAnd := X.(*ssa.BinOp)
+	if !isAnd || and.Op != token.AND {
+		return nil, "gate does not mask the field with the row's right"
+	}
+	a, b := and.X, and.Y
+	if ld, ok := c11Load(b); ok {
+		if f, _, ok := m.boardField(ld.X, nil); ok && f == field {
+			a, b = b, a
+		}
+	}
+	ld, isLd := c11Load(a)
+	f, _, isBF := m.boardField(c11LoadAddr(ld), nil)
+	g2, idx2, right, ok := m.cellRef(b)
+	if !isLd || !isBF || f != field || !ok || g2 != g || idx2 != idx || right == let {
+		return nil, "gate does not combine Board." + field + " with a cell of the same row as the byte written"
+	}
+	t := &c11TableEmit{rows: rows, right: right, let: let}
+	if k, isZero := c11Int(Y); op == token.NEQ && isZero && k == 0 {
+		return t, ""
+	}
+	if g3, idx3, col3, ok := m.cellRef(Y); op == token.EQL && ok && g3 == g && idx3 == idx && col3 == right {
+		t.eq = true
+		return t, ""
+	}
+	return nil, "gate is neither `field & row.right != 0` nor `field & row.right == row.right`"
+}
+
+func c11LoadAddr(ld *ssa.UnOp) ssa.Value {
+	if ld == nil {
+		return nil
+	}
+	return ld.X
+}
+
+// text: what the table-driven emission writes when the field holds x — arithmetic on the constant rows.
+func (t *c11TableEmit) text(x int64) (s string) {
+	for _, row := range t.rows {
+		if r := row[t.right]; (!t.eq && x&r != 0) || (t.eq && r != 0 && x&r == r) {
+			s += string(rune(row[t.let]))
+		}
+	}
+	return s
 }
 
 // c11Emit is one piece of text the printer emits.
@@ -2596,8 +2928,23 @@ func c11R3(c *Ctx, m *c11Model) {
 	// (b) castling rights: all 16 sets round-trip, canonical order
 	if fn, es := parserOf("Castles"), emsOf("Castles"); fn != nil && len(es) > 0 {
 		sort.SliceStable(es, func(i, j int) bool { return c11Before(es[i].in, es[j].in) })
+		// emissions are either constant strings under evaluable conditions (if-chain form) or one byte per row of a
+		// constant {right, letter} table written by a full-range loop (read statically, nothing is executed)
+		tables, whyNot := map[int]*c11TableEmit{}, ""
+		for i, e := range es {
+			if e.kind != "lit" {
+				var why string
+				if tables[i], why = m.tableEmit(e, "Castles"); tables[i] == nil {
+					whyNot = fmt.Sprintf(" — the emission at %s is neither a constant string nor a table-driven byte: %s", m.p.Rel(e.in.Pos()), why)
+				}
+			}
+		}
 		printed := func(x int64) (s string, ok bool) {
-			for _, e := range es {
+			for i, e := range es {
+				if t := tables[i]; t != nil {
+					s += t.text(x)
+					continue
+				}
 				on, known := guards(e, envFor("Castles", x))
 				if !known || e.kind != "lit" {
 					return "", false
@@ -2619,7 +2966,7 @@ func c11R3(c *Ctx, m *c11Model) {
 					back |= v
 				}
 			}
-			if report(fmt.Sprintf("castling#rights=%d", x), es[0].in.Pos(), fuzzy, good && back == x, "rights %04b are printed as %q; the parser reads that back as %04b (every letter accepted: %v)", x, s, back, good) {
+			if report(fmt.Sprintf("castling#rights=%d", x), es[0].in.Pos(), fuzzy, good && back == x, "rights %04b are printed as %q; the parser reads that back as %04b (every letter accepted: %v)%s", x, s, back, good, whyNot) {
 				n++
 			}
 		}
@@ -2809,6 +3156,9 @@ func c11EmitVal(e *c11Emit) ssa.Value {
 func init() {
 	const fen, uci, epd, ext = "board/fen.go", "uci/uci.go", "tools/tuner/epd/parser.go", "tools/extract/extract.go"
 	const endCheck = "\t\t\tif fp.ix >= fp.l {\n\t\t\t\treturn errors.New(\"premature end of fen\")\n\t\t\t}\n"
+	const ifChain = "\tif b.Castles&ShortWhite != 0 {\n\t\tsb.WriteString(\"K\")\n\t}\n\n\tif b.Castles&LongWhite != 0 {\n\t\tsb.WriteString(\"Q\")\n\t}\n\n\tif b.Castles&ShortBlack != 0 {\n\t\tsb.WriteString(\"k\")\n\t}\n\n\tif b.Castles&LongBlack != 0 {\n\t\tsb.WriteString(\"q\")\n\t}\n"
+	const tableLoop = "\tfor _, fc := range fenCastles {\n\t\tif b.Castles&fc.right != 0 {\n\t\t\tsb.WriteByte(fc.letter)\n\t\t}\n\t}\n"
+	const tableDecl = "var fenCastles = [...]struct {\n\tright  Castles\n\tletter byte\n}{{ShortWhite, 'K'}, {LongWhite, 'Q'}, {ShortBlack, 'q'}, {LongBlack, 'k'}}\n\n"
 	mut := func(name, file, old, new, expect string) Mutant {
 		return Mutant{Name: "C11." + name, Prop: "C11", File: file, Old: old, New: new, Expect: "C11." + expect}
 	}
@@ -2851,6 +3201,11 @@ func init() {
 		mut("R2-fromfen-without-hash", fen, "\tb.ResetHash()\n\n\treturn &b, nil", "\treturn &b, nil", "R2/board.FromFEN#return:hash-reset"),
 		// R3
 		quick(kq),
+		func() Mutant { // table-driven printer (loop over {right, letter} rows) whose table has k and q exchanged
+			m := mut("R3-table-printer-kq-swapped", fen, ifChain, tableLoop, "R3/castling#rights=4")
+			m.File2, m.Old2, m.New2 = fen, "func (b Board) FEN() string {", tableDecl+"func (b Board) FEN() string {"
+			return m
+		}(),
 		mut("R3-printer-castling-order", fen, "\tif b.Castles&ShortWhite != 0 {\n\t\tsb.WriteString(\"K\")\n\t}\n\n\tif b.Castles&LongWhite != 0 {\n\t\tsb.WriteString(\"Q\")\n\t}\n",
 			"\tif b.Castles&LongWhite != 0 {\n\t\tsb.WriteString(\"Q\")\n\t}\n\n\tif b.Castles&ShortWhite != 0 {\n\t\tsb.WriteString(\"K\")\n\t}\n", "R3/castling#canonical-order"),
 		mut("R3-printer-letters-permuted", fen, "\" PNBRQK pnbrqk\"", "\" PNBRQK pbnrqk\"", "R3/pieces#color1-piece2"),
